@@ -33,6 +33,10 @@ def run_lp(case):
     m = lpinterface.model("t", "cbc")
     style = case["names"]
     nm = [(f"b.{i}-x#{i % 2}>" if style == 1 else ("dup" if style == 2 and i % 3 == 0 else f"B_{i}")) for i in range(nb)]
+    if style == 3:  # longer than the 200-character limit, distinct only after it (names of alleles that list many variants)
+        nm = ["A_1001+" + "42126600AG+" * 19 + f"tail{i}" for i in range(nb)]
+    elif style == 4:  # the same over-long name several times, next to short ones
+        nm = [("K_" + "x" * 230) if i % 2 == 0 else f"B_{i}" for i in range(nb)]
     B = [m.addVar(vtype="B", name=nm[i]) for i in range(nb)]
     names = [m.varName(b) for b in B]
     viol = []
@@ -44,6 +48,10 @@ def run_lp(case):
     for j, (co, rhs) in enumerate(case["rows"]):
         co = (co + [0] * nb)[:nb]
         rhs = rhs / 100.0
+        if case.get("planted") is not None:
+            # exact evidence: the right-hand side is what the planted assignment produces (optimum 0 unless a constraint excludes it)
+            xs = [(case["planted"] >> i) & 1 for i in range(nb)]
+            rhs = float(sum(c * x for c, x in zip(co, xs)))
         e = m.addVar(lb=-m.INF, ub=m.INF, name=f"E_{j}")
         ex = sum(c * b for c, b in zip(co, B)) + e
         m.addConstr(ex <= rhs, name="C")
@@ -72,8 +80,10 @@ def run_lp(case):
         t = sorted({i % nb for i in t})
         p = m.addVar(vtype="B", name=f"P{len(prods)}")
         m.prod(p, [B[i] for i in t])
-        prods.append((t, w / 100.0, m.varName(p), p))
+        prods.append((t, 0.0 if case.get("planted") is not None else w / 100.0, m.varName(p), p))
     pen = [(x / 100.0) for x in (case["pen"] + [0] * nb)[:nb]]
+    if case.get("planted") is not None:
+        pen = [0.0] * nb
     wts = (case["w"] + [1] * len(E))[:len(E)]
     coeffs = {m.varName(E[j]): wts[j] for j in range(len(E))}
     obj = m.abssum(E, coeffs=coeffs) + sum(p * b for p, b in zip(pen, B))
@@ -145,7 +155,10 @@ def run_lp(case):
                 sup += 1
                 if not any(s <= k and feas.get(s, 1e18) <= o + 1e-4 for s in seen):
                     viol.append(V("within-gap-assignment-lost", names=sorted(k), obj=o, best=best, gap=gap))
-    return viol, within, ["superset-skipped"] if sup else []
+    extra = ["superset-skipped"] if sup else []
+    if abs(best) < 1e-9 and gap > 0 and any(0 < o <= gap for o in feas.values()):
+        extra.append("zero-optimum-with-competitor-below-the-gap-value")
+    return viol, within, extra
 
 
 # ------------------------------------------------------------------------------------------- part ii
@@ -287,7 +300,7 @@ def enum_cases(tier):
 
 def strategy(tier):
     lp = st.integers(2, 8).flatmap(lambda nb: st.fixed_dictionaries({
-        "kind": st.just("lp"), "nb": st.just(nb), "gap": st.sampled_from([0, 0.1, 0.5]), "names": st.sampled_from([0, 1, 2]),
+        "kind": st.just("lp"), "nb": st.just(nb), "gap": st.sampled_from([0, 0.1, 0.5]), "names": st.sampled_from([0, 1, 2, 3, 4]),
         "rows": st.lists(st.tuples(st.lists(st.sampled_from([0, 0, 1, 1, 2]), min_size=nb, max_size=nb), st.integers(0, 300)).map(list),
                          min_size=1, max_size=5),
         "cons": st.lists(st.one_of(
@@ -296,7 +309,8 @@ def strategy(tier):
             st.tuples(st.just("excl"), st.lists(st.integers(0, 7), min_size=2, max_size=2), st.just(0))).map(list), max_size=4),
         "prods": st.lists(st.tuples(st.lists(st.integers(0, 7), min_size=1, max_size=3), st.integers(0, 100)).map(list), max_size=2),
         "pen": st.lists(st.integers(0, 100), min_size=nb, max_size=nb),
-        "w": st.lists(st.sampled_from([1, 1, 2, 0, 0.5]), min_size=5, max_size=5),
+        "w": st.lists(st.sampled_from([1, 1, 2, 0, 0.5, 0.2]), min_size=5, max_size=5),
+        "planted": st.none() | st.none() | st.integers(0, 2 ** nb - 1),
     }))
     audit = st.fixed_dictionaries({"kind": st.just("audit"), "stage": st.sampled_from(["cn", "major", "minor"]),
                                    "gap": st.sampled_from([0, 0.1, 0.3]), "seed": st.integers(0, 10 ** 6)})
